@@ -1287,8 +1287,8 @@ Lemma handle_commit_spec s h :
 Proof.
   cbv zeta. unfold handle_commit. destruct (ro (conf s)); [split; [apply RO_refl|nonzero]|].
   destruct (lookup_node s h) as [[p na]|]; [|split; [apply RO_refl|nonzero]].
-  pose proof (getattr_h_ro s h p) as R. destruct (getattr_h s h p) as [s1 [a|e]]; cbn [fst snd] in *; (split; [exact R|]).
-  - intros _. exists p, na, a. splits; reflexivity.
+  pose proof (getattr_h_ro s h p) as R. destruct (getattr_h s h p) as [s1 [a|e]] eqn:E; cbn [fst snd] in *; (split; [exact R|]).
+  - intros _. exists p, na, a. rewrite E. splits; reflexivity.
   - nonzero.
 Qed.
 
